@@ -13,6 +13,7 @@ import (
 	"fmt"
 	"testing"
 
+	"github.com/New-JAMneration/JAM-Protocol/PVM"
 	"github.com/New-JAMneration/JAM-Protocol/internal/types"
 	"github.com/New-JAMneration/JAM-Protocol/internal/work_package"
 	"github.com/New-JAMneration/JAM-Protocol/internal/zzverif/refmerkle"
@@ -168,4 +169,161 @@ func TestVerifC32(t *testing.T) {
 		}
 		h.Distinct("spec", ne, len(bundle), spec.ExportsRoot[:])
 	}
+
+	// ---- whole report: GP 14.11 over a scripted refinement (fake executor), then C and A ------------------------------------
+	k := h.N(300, 6000)
+	for ci := 0; ci < k; ci++ {
+		if !h.Mine("report", ci) {
+			continue
+		}
+		r := h.Rng("report", ci)
+		reportCase(h, ci, r)
+	}
+}
+
+// scripted stands in for the PVM: it answers the authorisation and every refinement from a script.
+type scripted struct {
+	auth  []byte
+	items []PVM.RefineOutput
+}
+
+func (s *scripted) Psi_I(p types.WorkPackage, c types.CoreIndex, code types.ByteSequence) PVM.Psi_I_ReturnType {
+	return PVM.Psi_I_ReturnType{WorkExecResult: types.WorkExecResultOk, WorkOutput: s.auth, Gas: 7}
+}
+
+func (s *scripted) RefineInvoke(in PVM.RefineInput) PVM.RefineOutput { return s.items[in.WorkItemIndex] }
+
+func reportCase(h *vh.H, ci int, r vh.R) {
+	ni := 1 + r.IntN(4)
+	var wp types.WorkPackage
+	sc := &scripted{auth: r.Bytes([]int{0, 10, 1000, 20000}[r.IntN(4)])}
+	WR := types.WorkReportOutputBlobsMaximumSize
+	type want struct {
+		typ     types.WorkExecResultType
+		data    []byte
+		exports []types.ExportSegment
+		gas     types.Gas
+	}
+	var wants []want
+	z := len(sc.auth)
+	var desc []string
+	for j := 0; j < ni; j++ {
+		var it types.WorkItem
+		it.Service = types.ServiceID(r.IntN(5))
+		it.ExportCount = types.U16(r.IntN(4))
+		it.Payload = r.Bytes(r.IntN(20))
+		for x := 0; x < r.IntN(3); x++ {
+			it.Extrinsic = append(it.Extrinsic, types.ExtrinsicSpec{Len: types.U32(r.IntN(100000))})
+		}
+		wp.Items = append(wp.Items, it)
+		out := PVM.RefineOutput{Gas: types.Gas(r.IntN(100000))}
+		// output sizes chosen so that the running total crosses W_R inside the package now and then
+		out.RefineOutput = r.Bytes([]int{0, 5, 1000, 12000, 20000, 30000, WR - z, WR - z + 1}[r.IntN(8)] % (WR + 2))
+		kind := "ok"
+		switch r.IntN(8) {
+		case 0:
+			kind, out.WorkResult, out.RefineOutput = "panic", types.WorkExecResultPanic, nil
+		case 1:
+			kind, out.WorkResult, out.RefineOutput = "out-of-gas", types.WorkExecResultOutOfGas, nil
+		default:
+			out.WorkResult = types.WorkExecResultOk
+		}
+		ne := int(it.ExportCount)
+		if r.IntN(5) == 0 {
+			ne = int(it.ExportCount) + 1 - 2*r.IntN(2) // one too many or one too few
+			if ne < 0 {
+				ne = 1
+			}
+		}
+		for x := 0; x < ne; x++ {
+			var seg types.ExportSegment
+			copy(seg[:], r.Bytes(64))
+			out.ExportSegment = append(out.ExportSegment, seg)
+		}
+		sc.items = append(sc.items, out)
+		// model of GP 14.11
+		w := want{gas: out.Gas, exports: make([]types.ExportSegment, it.ExportCount)}
+		switch {
+		case len(out.RefineOutput)+z > WR:
+			w.typ, kind = types.WorkExecResultReportOversize, kind+"->oversize"
+		case ne != int(it.ExportCount):
+			w.typ, kind = types.WorkExecResultBadExports, kind+"->bad-exports"
+		case out.WorkResult != types.WorkExecResultOk:
+			w.typ = out.WorkResult
+		default:
+			w.typ, w.data, w.exports = types.WorkExecResultOk, out.RefineOutput, out.ExportSegment
+			z += len(out.RefineOutput) // only successful outputs count against the budget of later items
+		}
+		wants = append(wants, w)
+		desc = append(desc, fmt.Sprintf("%s(out %d, exports %d/%d)", kind, len(out.RefineOutput), ne, it.ExportCount))
+	}
+	bundle := r.Bytes(1 + r.IntN(2000))
+	var wph, pa types.OpaqueHash
+	copy(wph[:], r.Bytes(32))
+	copy(pa[:], r.Bytes(32))
+	d := map[string]any{"items": fmt.Sprint(desc), "auth_output": len(sc.auth)}
+	h.Case("report", ci, "", d)
+	var rep types.WorkReport
+	var err error
+	if pn, msg, st := vh.Guard(func() {
+		rep, err = work_package.WorkReportCompute(&wp, 1, pa, nil, PVM.ExtrinsicDataMap{}, nil, types.ServiceAccountState{}, bundle, wph, sc)
+	}); pn {
+		d["panic"], d["stack"] = msg, st
+		h.Viol("report", ci, "", "work report computation panicked", d)
+		return
+	}
+	if err != nil {
+		d["err"] = err.Error()
+		h.Viol("report", ci, "", "work report computation fails although authorisation succeeded", d)
+		return
+	}
+	if len(rep.Results) != ni {
+		h.Viol("report", ci, "", "work report: number of digests differs from the number of items", d)
+		return
+	}
+	var leaves [][]byte
+	nexp := 0
+	for j, w := range wants {
+		g := rep.Results[j]
+		d["item"] = j
+		if g.Result.Type != w.typ {
+			d["got"], d["want"] = fmt.Sprint(g.Result.Type), fmt.Sprint(w.typ)
+			h.Viol("report", ci, "", "work digest: refinement result kind differs from GP 14.11 (oversize / bad exports / error / ok)", d)
+			return
+		}
+		if w.typ == types.WorkExecResultOk && !bytes.Equal(g.Result.Data, w.data) {
+			h.Viol("report", ci, "", "work digest: refinement output not carried over", d)
+			return
+		}
+		it := wp.Items[j]
+		var zs uint64
+		for _, x := range it.Extrinsic {
+			zs += uint64(x.Len)
+		}
+		if g.ServiceID != it.Service || g.RefineLoad.GasUsed != w.gas || int(g.RefineLoad.ExtrinsicCount) != len(it.Extrinsic) || uint64(g.RefineLoad.ExtrinsicSize) != zs || g.RefineLoad.Exports != it.ExportCount {
+			d["load"] = fmt.Sprintf("%+v", g.RefineLoad)
+			h.Viol("report", ci, "", "work digest inside the report: service or refine load differs", d)
+			return
+		}
+		for _, e := range w.exports {
+			leaves = append(leaves, append([]byte(nil), e[:]...))
+		}
+		nexp += len(w.exports)
+		h.Inc("report_items_" + map[types.WorkExecResultType]string{types.WorkExecResultOk: "ok", types.WorkExecResultReportOversize: "oversize", types.WorkExecResultBadExports: "bad_exports",
+			types.WorkExecResultPanic: "panic", types.WorkExecResultOutOfGas: "out_of_gas"}[w.typ])
+	}
+	delete(d, "item")
+	root := refmerkle.M(leaves, refmerkle.Blake)
+	switch {
+	case int(rep.PackageSpec.ExportsCount) != nexp:
+		h.Viol("report", ci, "", "package specification inside the report: export count differs", d)
+	case !bytes.Equal(rep.PackageSpec.ExportsRoot[:], root[:]):
+		h.Viol("report", ci, "", "package specification inside the report: exports root is not M over the segments the items export (zero segments for failed items)", d)
+	case int(rep.PackageSpec.Length) != len(bundle) || rep.PackageSpec.Hash != types.WorkPackageHash(wph):
+		h.Viol("report", ci, "", "package specification inside the report: hash or bundle length differs", d)
+	case !bytes.Equal(rep.AuthOutput, sc.auth) || rep.AuthorizerHash != pa || rep.CoreIndex != 1:
+		h.Viol("report", ci, "", "work report: authoriser output, authoriser hash or core differs", d)
+	}
+	h.Inc("reports")
+	h.Distinct("report", fmt.Sprint(desc))
 }
